@@ -406,7 +406,10 @@ def judge (ws : List String) (impl : String) : String :=
       let cfg : TraceProto.Config := { cap := depth, line := fun _ _ => some [] }
       let x0 : TraceProto.XState :=
         { s := { TraceProto.init nprod with cons := .writing ⟨primerPid, 0, []⟩ }, permits := 0 }
-      let allowed := TraceProto.dedup ((TraceProto.outcomes cfg x0 script).map fun o => o.filter (·.1 != primerPid))
+      let finals := TraceProto.finalStates cfg x0 script
+      -- (the exploration is fuel-bounded; a cut-short exploration is reported as such, never as `ok`)
+      if TraceProto.inconclusiveIn finals then "inconclusive the exploration of this script ran out of fuel" else
+      let allowed := TraceProto.dedup ((TraceProto.outcomesIn finals).map fun o => o.filter (·.1 != primerPid))
       -- the implementation's side
       let parts := impl.splitOn " writes="
       match parts with
